@@ -142,7 +142,13 @@ func verif_C10_client_stub() {
 		vc.tlsFail = true
 	}
 	vc.in = []byte(script)
-	vc.tlsIn = []byte("250-inside.example\r\n250 SMTPUTF8\r\n250 2.0.0 ok\r\n250 2.0.0 ok\r\n354 go\r\n250 2.0.0 ok\r\n221 2.0.0 bye\r\n")
+	// inside TLS the server announces one extension, or none at all
+	bare := nondetBool()
+	insideEhlo := "250-inside.example\r\n250 SMTPUTF8\r\n"
+	if bare {
+		insideEhlo = "250 inside.example\r\n"
+	}
+	vc.tlsIn = []byte(insideEhlo + "250 2.0.0 ok\r\n250 2.0.0 ok\r\n354 go\r\n250 2.0.0 ok\r\n221 2.0.0 bye\r\n")
 	usePkg := nondetBool()
 	var err error
 	var c *Client
@@ -168,11 +174,66 @@ func verif_C10_client_stub() {
 			_, hasInj := c.ext["XINJECTED"]
 			_, hasAuth := c.ext["AUTH"]
 			_, hasStart := c.ext["STARTTLS"]
-			verifAssert(hasUTF8 && !hasInj && !hasAuth && !hasStart && len(c.ext) == 1, "C10.client-capabilities-are-the-inside-ones")
+			if bare {
+				verifAssert(len(c.ext) == 0, "C10.client-capabilities-are-the-inside-ones")
+				ok1, _ := c.Extension("AUTH")
+				ok2, _ := c.Extension("STARTTLS")
+				verifAssert(!ok1 && !ok2 && !c.SupportsAuth("PLAIN"), "C10.client-forgets-plaintext-capabilities")
+			} else {
+				verifAssert(hasUTF8 && !hasInj && !hasAuth && !hasStart && len(c.ext) == 1, "C10.client-capabilities-are-the-inside-ones")
+			}
 		}
 	} else {
 		verifReach("C10.client-not-upgraded")
 		verifAssert(err != nil, "C10.client-refuses-without-tls")
 		verifAssert(len(vc.tlsOut) == 0, "C10.client-nothing-inside")
 	}
+}
+
+// verif_C10_unavailable: STARTTLS where it must not be available - no
+// TLSConfig - in every plaintext pre-state: refused with 5xx, nothing about
+// the session changes (same session, envelope kept, authentication kept), and
+// the plaintext conversation simply continues. Runs without the TLS stub, so
+// it is also compiled natively (translator validation for C10).
+func verif_C10_unavailable() {
+	pre := verifChoice(3)
+	m := &vsasl{failAt: -1}
+	be := &vbackend{authSession: true, mechs: []string{"XVERIF"}}
+	be.saslFn = func(_ *vsession, mech string) (sasl.Server, error) { return m, nil }
+	s, lg := verifServer(be)
+	s.AllowInsecureAuth = true
+	in := "EHLO p.example\r\n"
+	n := 2
+	switch pre {
+	case 1:
+		in += "AUTH XVERIF =\r\n"
+		n = 3
+	case 2:
+		in += "MAIL FROM:<early@v>\r\n"
+		n = 3
+	}
+	junk := nondetBytesN(2)
+	for _, ch := range junk {
+		assume(ch != '\n' && ch != '\r' && ch < 0x80 && ch > ' ')
+	}
+	in += "STARTTLS " + string(junk) + "\r\nRCPT TO:<r@v>\r\nNOOP\r\n"
+	vc, conn, _ := verifServe(s, []byte(in), io.EOF)
+	reps, wf := verifParseReplies(vc.out)
+	verifObserve("c10u", pre, junk, wf, len(reps), lg.lines)
+	verifAssert(wf && len(reps) == n+3 && lg.lines == 0, "C10.unavailable-replies")
+	if !wf || len(reps) != n+3 {
+		return
+	}
+	for _, l := range reps[1].lines {
+		verifAssert(l != "STARTTLS", "C10.starttls-not-offered-without-tlsconfig")
+	}
+	verifAssert(reps[n].code/100 == 5, "C10.starttls-refused-without-tlsconfig")
+	verifAssert(be.sessions == 1 && be.count("Logout") == 1, "C10.unavailable-session-untouched")
+	if pre == 2 {
+		verifAssert(reps[n+1].code == 250 && be.find("Rcpt", "r@v") >= 0, "C10.unavailable-envelope-kept")
+	} else {
+		verifAssert(reps[n+1].code/100 == 5, "C10.unavailable-no-envelope")
+	}
+	_ = conn
+	verifReach("C10.unavailable-end")
 }
